@@ -1,10 +1,11 @@
 TARGET = dict(
     rule=("tape-decoded history (<=50 ops) over <=6 block handles: alloc/alloc_from_opaque/dup/splice/split/append/insert/delete/truncate/resize/prepend/copy/merge/write/free "
-          "with boundary-biased offsets and sizes (negative, -1, segment boundary +-1, out of range) under a generated manager configuration; after each op a tape-chosen "
+          "with boundary-biased offsets and sizes (negative, -1, segment boundary +-1, out of range) under a generated manager configuration; in 15% of the cases (allocation-fault mode) half of the operations run with the 1st..4th allocation inside them refused (malloc of the repository sources "
+          "and of its inline headers goes through engine/faultmalloc.c): the operation may report an error, and then every handle must be exactly as before; after each op a tape-chosen "
           "first access (read/extract/peek/size_linear/scan/find/compare/equal/match) then every handle compared with its byte-vector model through size, extract, read loop, iovec and peek; "
           "non-trivial = a multi-segment handle whose accessor crossed a segment boundary, or an error path taken, or an access right after a cache-moving op; distinct by hash of ops+arguments"),
-    assumptions=["byte-vector reference model in the harness", "documented argument domains derived from include/upipe/ubuf_block.h comments", "ASan + exact-size umem areas"],
-    execs=[dict(name="blockstr", harness="harness/C03_blockstr.c", repo=LIBUPIPE, engine=MEMFIX, fuzz=dict(quick=(4, 10), thorough=(16, 120)))],
+    assumptions=["byte-vector reference model in the harness", "documented argument domains derived from include/upipe/ubuf_block.h comments", "ASan + exact-size umem areas", "allocation faults are injected at malloc/calloc/realloc of the repository code only (engine/faultmalloc.h force-included); the harness and engine allocate normally"],
+    execs=[dict(name="blockstr", harness="harness/C03_blockstr.c", repo=LIBUPIPE, engine=MEMFIX, fault_malloc=True, fuzz=dict(quick=(4, 10), thorough=(16, 120)))],
     quick=dict(cases=60000, budget=45), thorough=dict(cases=1500000, budget=600),
 )
 META = dict(
